@@ -320,14 +320,14 @@ type seqRun struct {
 	rng *prng.R
 	log []string
 
-	uses        map[int]int    // key id -> outstanding uses (the model of the statement)
-	imgUses     map[int]int    // image -> outstanding uses of all its (ref, digest) pairs
+	uses        map[int]int     // key id -> outstanding uses (the model of the statement)
+	imgUses     map[int]int     // image -> outstanding uses of all its (ref, digest) pairs
 	usedInEpoch map[string]bool // ref|digest used since the image's last release-to-zero
-	lookedHeld  map[int]bool   // key was looked up successfully while in use and has been in use ever since
-	dropped     map[int]string // how the key's layer was last released since its last successful lookup
-	faultedRef  map[int]bool   // a lookup on this image ran while a fault was injected (classification only)
-	zeroThenOK  map[int]bool   // image had a release-to-zero after a successful lookup (non-triviality)
-	pending     map[int]bool   // image was resolved, used and released to zero: the next lookup is the re-acquire
+	lookedHeld  map[int]bool    // key was looked up successfully while in use and has been in use ever since
+	dropped     map[int]string  // how the key's layer was last released since its last successful lookup
+	faultedRef  map[int]bool    // a lookup on this image ran while a fault was injected (classification only)
+	zeroThenOK  map[int]bool    // image had a release-to-zero after a successful lookup (non-triviality)
+	pending     map[int]bool    // image was resolved, used and released to zero: the next lookup is the re-acquire
 	holds       []*hold
 	fault       *fault
 	nontrivial  bool
